@@ -68,6 +68,7 @@ func truncate(s *slip.Scope, f slip.Object, args slip.List, depth int) slip.Valu
 		div = args[1]
 	}
 	num, div = slip.NormalizeNumber(num, div)
+	checkDivisor(s, depth, f, args, div)
 	switch tn := num.(type) {
 	case slip.Fixnum:
 		q = tn / div.(slip.Fixnum)
